@@ -2,7 +2,7 @@
 # tools/confirm_seed.sh <seed-dir> [quick]   confirm a seeded change in the scratch worktree /tmp/wt-own:
 #  demo passes on HEAD, patch applies and compiles, test suite passes with it, demo fails with it.
 set -u
-d="$1"; wt=/tmp/wt-own
+d="$1"; wt="${WT:-/tmp/wt-own}"
 cd "$wt" || exit 2
 git checkout -q -- . ; git clean -fdq -- lalrpop lalrpop-util lalrpop-test doc 2>/dev/null
 log="$d/confirm.log"; : > "$log"
